@@ -13,6 +13,7 @@ test-suite on a fully rewritten tree (tools/equiv_fuzz.py --validate).
   swap        two adjacent, mutually independent simple assignments are exchanged
   negate      a - b → a + (-b)
   keywords    positional arguments of calls to module-level repo functions become keywords
+  ifexp       `if c: x = A else: x = B` ↔ `x = A if c else B`;  `if c: return A` + `return B` ↔ `return A if c else B`
 """
 from __future__ import annotations
 
@@ -22,7 +23,7 @@ import copy
 import random
 
 SEQ_CALLS = {'tuple', 'list', 'str', 'sorted', 'dict', 'set', 'repr'}
-KINDS = ('commute', 'rename', 'hoist', 'swap', 'negate', 'keywords')
+KINDS = ('commute', 'rename', 'hoist', 'swap', 'negate', 'keywords', 'ifexp')
 
 
 def _sequence_evident(n):
@@ -210,6 +211,8 @@ class Rewriter:
       self.rewrite_stmt(st, scope, taken, pre)
       out.extend(pre)
       out.append(st)
+    if 'ifexp' in self.kinds:
+      out = self._ifexp(out)
     if 'swap' in self.kinds:
       i = 0
       while i + 1 < len(out):
@@ -221,6 +224,36 @@ class Rewriter:
         else:
           i += 1
     return out
+
+  def _ifexp(self, stmts):
+    res = []
+    i = 0
+    while i < len(stmts):
+      st = stmts[i]
+      nxt = stmts[i + 1] if i + 1 < len(stmts) else None
+      def one_assign(body):
+        return len(body) == 1 and isinstance(body[0], ast.Assign) and len(body[0].targets) == 1 and isinstance(body[0].targets[0], ast.Name)
+      if isinstance(st, ast.If) and one_assign(st.body) and one_assign(st.orelse) and st.body[0].targets[0].id == st.orelse[0].targets[0].id and self.flip():
+        res.append(ast.Assign(targets=[ast.Name(id=st.body[0].targets[0].id, ctx=ast.Store())], value=ast.IfExp(test=st.test, body=st.body[0].value, orelse=st.orelse[0].value), lineno=st.lineno))
+        self.log.append('if→ifexp')
+      elif isinstance(st, ast.If) and not st.orelse and len(st.body) == 1 and isinstance(st.body[0], ast.Return) and st.body[0].value is not None \
+          and isinstance(nxt, ast.Return) and nxt.value is not None and self.flip():
+        res.append(ast.Return(value=ast.IfExp(test=st.test, body=st.body[0].value, orelse=nxt.value), lineno=st.lineno))
+        self.log.append('if-return→ifexp')
+        i += 1
+      elif isinstance(st, ast.Assign) and len(st.targets) == 1 and isinstance(st.targets[0], ast.Name) and isinstance(st.value, ast.IfExp) and self.flip():
+        t = st.targets[0].id
+        res.append(ast.If(test=st.value.test, body=[ast.Assign(targets=[ast.Name(id=t, ctx=ast.Store())], value=st.value.body, lineno=st.lineno)],
+                          orelse=[ast.Assign(targets=[ast.Name(id=t, ctx=ast.Store())], value=st.value.orelse, lineno=st.lineno)], lineno=st.lineno))
+        self.log.append('ifexp→if')
+      elif isinstance(st, ast.Return) and isinstance(st.value, ast.IfExp) and self.flip():
+        res.append(ast.If(test=st.value.test, body=[ast.Return(value=st.value.body, lineno=st.lineno)], orelse=[], lineno=st.lineno))
+        res.append(ast.Return(value=st.value.orelse, lineno=st.lineno))
+        self.log.append('ifexp→if-return')
+      else:
+        res.append(st)
+      i += 1
+    return res
 
   def _independent(self, a, b):
     def simple(s):
